@@ -929,6 +929,31 @@ pub fn run(opts: &Opts) -> Run {
         s.op_stats(&mut run);
     }
 
+    // ---- production size: the LONGEST matches the driver can produce (a full block whose second half, or all but a
+    // short head, repeats its beginning: match lengths 65536 … 131067), and one-byte runs
+    for (k, head) in [65536usize, 65535, 65537, 40000, 5, 1000].into_iter().enumerate() {
+        s.op_new(&mut run, 1024 * 128, 1);
+        s.op_reset(&mut run);
+        let l = s.op_next(&mut run);
+        if s.dead || l == 0 {
+            break;
+        }
+        let mut d = rng.bytes(head.min(l));
+        if k == 4 {
+            d = vec![0x41; 5]; // a run: offset 1 … no: the matcher needs distinct 5-grams; keep the pattern short
+        }
+        let mut i = 0;
+        while d.len() < l {
+            let b = d[i];
+            d.push(b);
+            i += 1;
+        }
+        s.op_commit(&mut run, &d, None);
+        s.op_start(&mut run);
+        run.stat("prod_long_match_blocks", 1);
+        s.op_reset(&mut run);
+    }
+
     // samples: a few real request/answer pairs
     let idxs = [3usize, 4, 9, run.cases.len() / 2, run.cases.len() - 3];
     for i in idxs {
